@@ -20,7 +20,7 @@ public:
 
     void queue(const QByteArray &seg) { mIn.append(seg); }
     void feed(const QByteArray &seg) { mIn.append(seg); Q_EMIT readyRead(); }
-    void ack(qint64 n) { Q_EMIT bytesWritten(n); }
+    void ack(qint64 n) { mUnacked = qMax<qint64>(0, mUnacked - n); Q_EMIT bytesWritten(n); }
     // life mode (family "lifed"): the transport keeps count of bytes not yet handed to the network and behaves
     // like QAbstractSocket::close(): the connection is torn down (disconnected() emitted) once those are flushed
     bool lifeMode = false;
@@ -38,6 +38,7 @@ public:
     bool simOpen() const { return isOpen(); }
 
     qint64 bytesAvailable() const override { return mIn.size() + QIODevice::bytesAvailable(); }
+    qint64 bytesToWrite() const override { return mUnacked; }
     bool isSequential() const override { return true; }
     void close() override
     {
@@ -75,7 +76,7 @@ protected:
     qint64 writeData(const char *data, qint64 len) override
     {
         if (len > 0 && onWrite) onWrite(QByteArray(data, len));
-        if (lifeMode) mUnacked += len;
+        mUnacked += len;          // handed to the transport, not yet acknowledged: what bytesToWrite() reports
         return len;
     }
 
